@@ -446,6 +446,7 @@ func wsMsgDriver(a *Args) {
 		}
 		// wait for the backend to have everything, then close
 		time.Sleep(30 * time.Millisecond)
+		hx.Emit("CloseBegin", "sid", sid)
 		code, _ := shim.call("close", fmt.Sprintf(`{"id":%q}`, sid), "1")
 		hx.Emit("Call", "kind", "close", "arg", "valid", "sid", sid, "status", code)
 		time.Sleep(30 * time.Millisecond)
@@ -526,6 +527,7 @@ func wsCallsDriver(a *Args) {
 				k++
 				l := fmt.Sprintf("q%d-%d", i, k)
 				s, _ := shim.open(be, l, "1")
+				hx.Emit("CloseBegin", "sid", s)
 				code, _ := shim.call("close", fmt.Sprintf(`{"id":%q}`, s), "1")
 				hx.Emit("Call", "kind", "close", "arg", "valid", "sid", s, "status", code)
 				closedSid = s
@@ -634,6 +636,9 @@ func wsCallsDriver(a *Args) {
 					body = fmt.Sprintf(`{"id":%q}`, sid)
 				case "malformed":
 					body = `not json at all`
+				}
+				if arg == "valid" {
+					hx.Emit("CloseBegin", "sid", sid)
 				}
 				code, _ := shim.call("close", body, "1")
 				hx.Emit("Call", "kind", "close", "arg", arg, "sid", sid, "status", code)
